@@ -602,12 +602,11 @@ func runEngProp(prop string) runner {
 			if tier == "thorough" {
 				np = 3000
 			}
-			if prop == "C01" {
-				w := d25Witness()
+			for _, w := range d25Witnesses() {
 				rep.Evaluations++
-				rep.count("json fact runs: witness of D25")
+				rep.count("json fact runs: regression scenarios of D25")
 				if msg := runJSONRun(w); msg != "" {
-					rep.failKey(d25Key, msg, w)
+					rep.fail(msg, w)
 				}
 			}
 			for i := 0; i < np; i++ {
